@@ -106,7 +106,7 @@ def check_mask_lockstep(ck: Checker, prog: Program, rule: str, modules=("hvsr_tr
     n = 0
     for mname in modules:
         mod = prog.module(mname)
-        for f in [g for g in prog.funcs.values() if g.module is mod and g.kind != "lambda"]:
+        for f in [g for g in prog.funcs.values() if g.module is mod and g.kind != "lambda" and g.qualname not in getattr(prog, "absorbed", set())]:
             for st in own_nodes(f.node):
                 if not isinstance(st, ast.Assign) or len(st.targets) != 1:
                     continue
@@ -170,6 +170,12 @@ def _not_boolean(f: Func, v: ast.AST) -> Optional[str]:
                 for d in defs:
                     if isinstance(d.value, ast.List) and not d.value.elts:
                         continue
+                    if isinstance(d.value, ast.ListComp):
+                        e = d.value.elt
+                        if (isinstance(e, ast.IfExp) and all(isinstance(x, ast.Constant) and isinstance(x.value, bool) for x in (e.body, e.orelse))) \
+                                or isinstance(e, ast.Compare) or (isinstance(e, ast.Call) and call_name(e) == "bool") \
+                                or (isinstance(e, ast.Constant) and isinstance(e.value, bool)):
+                            continue
                     if isinstance(d.value, ast.Call) and _not_boolean(f, d.value) is None:
                         continue
                     return f"`{a.id}` is defined by `{norm_key(d, 60)}`"
